@@ -34,7 +34,8 @@
    constants of <sys/epoll.h> / <poll.h> (IN=1 OUT=4 ERR=8 HUP=16).  `sys_bits` is that renaming; it is what the
    virtual kernel of the harness (vk.c) applies, and the lemmas are stated through it. *)
 From Coq Require Import List ZArith Bool Lia.
-From Ivv Require Import Base.CSem Gen.LeafCoreFd Gen.LeafCoreTask Gen.LeafCoreMain Gen.LeafCoreEpoll Gen.LeafCorePoll.
+From Ivv Require Import Base.CSem Gen.LeafCoreFd Gen.LeafCoreTask Gen.LeafCoreMain Gen.LeafCoreEpoll Gen.LeafCorePoll
+  Gen.LeafCoreEvent Gen.LeafCoreLists.
 From Ivv Require Import Core.Kernel Core.CoreTypes Core.CoreFd Core.CoreModel.
 Import ListNotations.
 Local Open Scope Z_scope.
@@ -500,6 +501,96 @@ Proof.
   - intros ->. reflexivity.
   - destruct (negb (pidx f =? -1) && (wanted f =? 0)) eqn:Ed; [exact I|].
     destruct (negb (pidx f =? -1)); reflexivity.
+Qed.
+
+(* ------------------------------------------------------------------------------------------------------------ *)
+(* iv_event.c (owner-thread paths) and the list predicates.  A call of iv_list_empty / iv_task_registered /
+   iv_pending_tasks inside a translated test is a parameter of the test (0 / non-zero); the lemmas instantiate it with
+   what the model's lists say. *)
+
+Lemma b2z_z b : (b2z b =? 0) = negb b.
+Proof. destruct b; reflexivity. Qed.
+
+Lemma leaf_event_tests :
+  (forall e : bool, core_evp_unqueued (b2z e) = Some e) /\ (forall e : bool, core_evp_first (b2z e) = Some e) /\
+  core_evp_post_init tt = Some (b2z false) /\ core_evp_post_set tt = Some (b2z true) /\
+  (forall p : bool, core_evp_post_test (b2z p) = Some p) /\
+  (forall a b, core_evp_same_thread a b = Some (a =? b)) /\
+  (forall r : bool, core_evp_need_task (b2z r) = Some (negb r)) /\
+  (forall u : bool, core_evp_use_raw (b2z u) = Some u) /\
+  (forall e : bool, core_evrun_nothing (b2z e) = Some e) /\ (forall e : bool, core_evrun_last (b2z e) = Some e).
+Proof.
+  unfold core_evp_unqueued, core_evp_first, core_evp_post_test, core_evp_need_task, core_evp_use_raw,
+    core_evrun_nothing, core_evrun_last.
+  repeat split; intros; rewrite ?b2z_z, ?negb_involutive; reflexivity.
+Qed.
+
+Definition list_is_empty {A} (l : list A) : bool := match l with [] => true | _ => false end.
+
+(* iv_event_post called by the owner thread (dst == me), written with the translated tests and stores *)
+Definition event_post_code (s : core) (j : Z) : option core :=
+  ub_bind (core_evp_post_init tt) (fun p0 =>
+  ub_bind (core_evp_post_set tt) (fun p1 =>
+  ub_bind (core_evp_unqueued (b2z (negb (ev_on_list s j)))) (fun unqueued =>
+  ub_bind (core_evp_first (b2z (list_is_empty (ev_pending s)))) (fun first =>
+  let post := if unqueued then (if first then p1 else p0) else p0 in
+  let s := if unqueued then set_evlists s (ev_pending s ++ [j]) (ev_batch s) else s in
+  ub_bind (core_evp_post_test post) (fun do_post =>
+  if do_post then
+    ub_bind (core_evp_same_thread 1 1) (fun same =>
+    if same then
+      ub_bind (core_evp_need_task (b2z (task_registered s LOCAL_TASK))) (fun need =>
+      Some (if need then task_register s LOCAL_TASK else s))
+    else None)
+  else Some s))))).
+
+Theorem event_post_is_the_code : forall s j, event_post_code s j = Some (event_post s j).
+Proof.
+  intros s j. unfold event_post_code, event_post.
+  destruct leaf_event_tests as (H1 & H2 & H3 & H4 & H5 & H6 & H7 & _).
+  rewrite H3, H4, H1, H2. cbn [ub_bind].
+  destruct (ev_on_list s j); cbn [negb].
+  - change 0 with (b2z false). rewrite H5. reflexivity.
+  - destruct (ev_pending s) as [|e l]; cbn [list_is_empty].
+    + rewrite H5. cbn [ub_bind]. rewrite H6, Z.eqb_refl. cbn [ub_bind]. rewrite H7. cbn [ub_bind andb].
+      destruct (task_registered _ LOCAL_TASK); reflexivity.
+    + rewrite H5. reflexivity.
+Qed.
+
+(* iv_main: `if (iv_pending_tasks(st))` chooses the zero timeout *)
+Theorem main_timeout_choice_is_the_code : forall (s : core) (soonest : option Z),
+  match core_main_tasks_pending (b2z (negb (list_is_empty (tasks s)))), core_main_zero_sec tt, core_main_zero_nsec tt with
+  | Some pending, Some sec, Some nsec => Some (if pending then Some (sec * 1000000000 + nsec) else soonest)
+  | _, _, _ => None
+  end = Some (match tasks s with _ :: _ => Some 0 | [] => soonest end).
+Proof.
+  intros s soonest. unfold core_main_tasks_pending. rewrite b2z_z, !negb_involutive.
+  destruct (tasks s); reflexivity.
+Qed.
+
+(* loop conditions and misuse guards over lists *)
+Lemma leaf_list_tests :
+  (forall e : bool, core_run_tasks_more (b2z e) = Some (negb e)) /\
+  (forall e : bool, core_task_reg_misuse (b2z e) = Some (negb e)) /\
+  (forall e : bool, core_task_unreg_misuse (b2z e) = Some e) /\
+  (forall e : bool, core_disp_more (b2z e) = Some (negb e)) /\
+  (forall e : bool, core_ready_fresh (b2z e) = Some e) /\
+  (forall e : bool, core_unreg_flush (b2z e) = Some (negb e)) /\
+  (forall e : bool, core_flush_more (b2z e) = Some (negb e)).
+Proof.
+  unfold core_run_tasks_more, core_task_reg_misuse, core_task_unreg_misuse, core_disp_more, core_ready_fresh,
+    core_unreg_flush, core_flush_more.
+  repeat split; intros; rewrite ?b2z_z, ?negb_involutive; reflexivity.
+Qed.
+
+(* iv_fd_epoll_unregister_fd: flush iff the descriptor is on the notify list *)
+Theorem epoll_unregister_fd_is_the_code : forall s k,
+  match core_unreg_flush (b2z (negb (mem_z k (notify s)))) with
+  | Some flush => Some (if flush then epoll_flush_one s k else R s)
+  | None => None
+  end = Some (epoll_unregister_fd s k).
+Proof.
+  intros s k. destruct leaf_list_tests as (_ & _ & _ & _ & _ & H & _). rewrite H, negb_involutive. reflexivity.
 Qed.
 
 (* ------------------------------------------------------------------------------------------------------------ *)
